@@ -422,4 +422,104 @@ def runHistory (env : Env) : List Call → Stores → List Out
   | [], _ => []
   | c :: cs, s => let r := runCall env c s; r.1 :: runHistory env cs r.2
 
+/-! ### nested calls: a method body that calls other checked functions before it returns
+
+A call together with the calls its body makes.  The body catches and journals whatever a nested call raises, so the
+outcome of a nested call never becomes the outcome of its caller through the exception path.  `nPre` is the number of
+checks made BEFORE the body runs (the parameters); the remaining checks (the result) follow the body.
+
+What the code does (`FunctionCall.type_vars`, the accessor of `pedantic_class`):
+* the store is resolved at the FIRST check of the call — before the body if the function has a parameter, after the body
+  if it has none — and the dict obtained then is used by every check of this call;
+* for a method of a `@pedantic_class` instance that dict is the very object the accessor left in the instance attribute,
+  so while the body runs the attribute shows the bindings made by the parameter checks; a nested call on the same instance
+  reads it (only the type parameters of the class are carried over) and REPLACES the attribute with a dict of its own;
+* after the body the result is checked with the dict of this call; the attribute keeps what the last nested call on the
+  instance left there, or — when there was none — is still the dict of this call.
+-/
+inductive Tree where
+  | node (c : Call) (nPre : Nat) (body : List Tree)
+
+instance : Inhabited Tree := ⟨.node ⟨0, 0, .perCall, false, []⟩ 0 []⟩
+
+mutual
+def Tree.count : Tree → Nat
+  | .node _ _ body => 1 + Tree.countL body
+def Tree.countL : List Tree → Nat
+  | [] => 0
+  | t :: ts => t.count + Tree.countL ts
+end
+
+/-- journal entries of calls that were never made (the body did not run) -/
+def skipped (body : List Tree) : List (Option Out) := List.replicate (Tree.countL body) none
+
+def isScanFail (c : Call) : Bool :=
+  match c.kind, c.scanFails with
+  | .genericInstance _ _, true => true
+  | _, _ => false
+
+/-- the stores after a call left `cm` in its `FunctionCall` and `attr` in the attribute of its instance -/
+def writeBack (c : Call) (s : Stores) (cm attr : TVMap) : Stores :=
+  { attrs := if usesAttr c.kind then s.attrs.put (attrKey c) attr else s.attrs,
+    fns := if perCallFreshMap then s.fns else s.fns.put c.fn cm }
+
+/-- the stores when the ONE dict `m` of a call is (also) what the attribute of its instance refers to -/
+def expose (c : Call) (s : Stores) (cm0 m : TVMap) : Stores :=
+  writeBack c s (if usesAttr c.kind then cm0 else m) m
+
+structure TRes where
+  out : Out                              -- outcome of the call
+  st : Stores
+  touched : List Nat                     -- instances whose attribute was replaced by this call or a call below it
+  log : List (Option Out)                -- outcomes of the calls below it, pre-order; `none`: never made
+
+structure BRes where
+  st : Stores
+  touched : List Nat
+  log : List (Option Out)
+
+mutual
+def runTree (env : Env) : Tree → Stores → TRes
+  | .node c n body, s =>
+    let key := attrKey c
+    let pre := c.checks.take n
+    let post := c.checks.drop n
+    let me := if usesAttr c.kind then [key] else []
+    let cm0 := if perCallFreshMap then [] else s.fns.get c.fn
+    if pre.isEmpty then
+      -- nothing is checked before the body: the store is first read by the check of the result
+      let b := runBody env body s
+      let r := runCall env c b.st
+      ⟨r.1, r.2, b.touched ++ me, b.log⟩
+    else if isScanFail c then ⟨(runCall env c s).1, s, [], skipped body⟩
+    else if resolveOncePerCall then
+      let r1 := runFrom env pre (accessMap c.kind cm0 (s.attrs.get key))
+      match r1.1 with
+      | .ok =>
+        let b := runBody env body (expose c s cm0 r1.2)
+        let r2 := runFrom env post r1.2
+        ⟨r2.1, if usesAttr c.kind && b.touched.contains key then b.st else expose c b.st cm0 r2.2, me ++ b.touched, b.log⟩
+      | o => ⟨o, expose c s cm0 r1.2, me, skipped body⟩
+    else
+      let r1 := runChecksPerAccess env c.kind pre cm0 (s.attrs.get key)
+      match r1.1 with
+      | .ok =>
+        let b := runBody env body (writeBack c s r1.2.1 r1.2.2)
+        let r2 := runChecksPerAccess env c.kind post r1.2.1 (b.st.attrs.get key)
+        ⟨r2.1, writeBack c b.st r2.2.1 r2.2.2, me ++ b.touched, b.log⟩
+      | o => ⟨o, writeBack c s r1.2.1 r1.2.2, me, skipped body⟩
+/-- the nested calls of a body, in order; each is caught and journalled -/
+def runBody (env : Env) : List Tree → Stores → BRes
+  | [], s => ⟨s, [], []⟩
+  | t :: ts, s =>
+    let r := runTree env t s
+    let b := runBody env ts r.st
+    ⟨b.st, r.touched ++ b.touched, some r.out :: r.log ++ b.log⟩
+end
+
+/-- a history of top-level calls, each with its tree of nested calls: (outcome, journal of the calls below it) per step -/
+def runForest (env : Env) : List Tree → Stores → List (Out × List (Option Out))
+  | [], _ => []
+  | t :: ts, s => let r := runTree env t s; (r.out, r.log) :: runForest env ts r.st
+
 end PedVerif.TypeVars
